@@ -155,9 +155,9 @@ Proof.
   all: (* a register target: latch it in the temporary, link, branch to the temporary *)
     match goal with |- context [OAssign (s_temp0 64) ?ee] => set (e := ee) in * end;
     assert (T1 : exec_op st (OAssign (s_temp0 64) e) =
-                 Ok (mkst (env_set (st_env st) (38%N, None) (mkc 64 (X s rn))) (st_mem st), EvAssign (38%N, None) (mkc 64 (X s rn))))
+                 Ok (mkst (env_set (st_env st) (70%N, None) (mkc 64 (X s rn))) (st_mem st), EvAssign (70%N, None) (mkc 64 (X s rn))))
       by (cbn [exec_op]; rewrite D; reflexivity);
-    pose proof (emb_set_free s st 38%N (mkc 64 (X s rn)) He ltac:(lia)) as He2;
+    pose proof (emb_set_free s st 70%N (mkc 64 (X s rn)) He ltac:(lia)) as He2;
     destruct (exec_link s _ addr He2) as (st2 & F1 & F2 & F3);
     exists st2; (split; [|apply Hgoal; exact F2]); rewrite Hpc';
     unfold run_lifted; rewrite run_graph_straight by (cbn; lia);
